@@ -220,7 +220,7 @@ Fixpoint load (s : sk) (reg : list string) : result :=
                     | [] => Ok reg
                     | x :: t => match load x reg with Ok reg' => go t reg' | e => e end
                     end) body reg with
-           | Ok reg' => Ok (id :: reg')
+           | Ok reg' => if mem id reg' then Err (Duplicate id) else Ok (id :: reg')
            | e => e
            end
   | SBad id => if mem id reg then Err (Duplicate id) else Err (Unknown id)
@@ -230,7 +230,8 @@ Fixpoint load (s : sk) (reg : list string) : result :=
 Inductive ev : Type :=
 | EChk (id : string)      (* `id in dic`  at the start of a definition *)
 | ERef (r : string)       (* dic[r] *)
-| ESet (id : string)      (* dic[id] = obj at the end of a definition *)
+| ESet (id : string)      (* `id in dic` once more (the id may have been registered while the object
+                             was being built), then dic[id] = obj, at the end of a definition *)
 | EFail (e : err).        (* the loader stops here whatever the registry *)
 
 Fixpoint events (s : sk) : list ev :=
@@ -248,7 +249,7 @@ Fixpoint run (evs : list ev) (reg : list string) : result :=
   | [] => Ok reg
   | EChk id :: r => if mem id reg then Err (Duplicate id) else run r reg
   | ERef x :: r => if mem x reg then run r reg else Err (Dangling x)
-  | ESet id :: r => run r (id :: reg)
+  | ESet id :: r => if mem id reg then Err (Duplicate id) else run r (id :: reg)
   | EFail e :: _ => Err e
   end.
 
@@ -273,7 +274,7 @@ Fixpoint refs_resolve (evs : list ev) (seen chk : list string) : bool :=
   end.
 
 Definition wf_events (evs : list ev) : bool :=
-  no_fail evs && nodupb (chk_ids evs) && refs_resolve evs [] [].
+  no_fail evs && nodupb (chk_ids evs) && nodupb (set_ids evs) && refs_resolve evs [] [].
 
 (* all identified objects anywhere in the term *)
 Fixpoint all_ids (j : json) : list string :=
